@@ -23,5 +23,7 @@ for d in sorted(os.listdir(os.path.join(VERIF, "seeded"))):
     rows.append((d, m.get("property", d.split('-')[1]), m.get("change", ""), m.get("needs", ""), "<br>".join(res) or "not run", m.get("status_note", "")))
 print("| seed | property | change | needs, to manifest | result on the final tree |")
 print("|---|---|---|---|---|")
+esc = lambda t: t.replace("|", "\\|")
 for d, p, c, n, r, sn in rows:
+    c, n, r, sn = esc(c), esc(n), esc(r), esc(sn)
     print(f"| {d} | {p} | {c} | {n} | {r}{(' ' + sn) if sn else ''} |")
